@@ -308,12 +308,13 @@ def scaler_stream(ctx):
         m2 = torch.nn.Sequential(torch.nn.Linear(3, 2)).double()
         m2.load_state_dict(m.state_dict())
         cell = [scales[0]]
-        case = {'scales': scales, 'accumulation': accum, 'update_factors_in_hook': hook}
+        method = rng.choice(['eigen', 'inverse'])          # (the loss scale is undone by the layer, whatever the compute method)
+        case = {'scales': scales, 'accumulation': accum, 'update_factors_in_hook': hook, 'method': method}
         try:
             p1 = KFACPreconditioner(m, grad_scaler=lambda: cell[0], factor_decay=0.5, kl_clip=None,
-                                    accumulation_steps=accum, update_factors_in_hook=hook)
+                                    accumulation_steps=accum, update_factors_in_hook=hook, compute_method=method)
             p2 = KFACPreconditioner(m2, factor_decay=0.5, kl_clip=None, accumulation_steps=accum,
-                                    update_factors_in_hook=hook)
+                                    update_factors_in_hook=hook, compute_method=method)
             for _step in range(2):
                 for sc in scales:
                     cell[0] = sc
